@@ -16,6 +16,7 @@ import (
 
 // qhyp is a quantified hypothesis kept for re-instantiation when new index terms appear.
 type qhyp struct {
+	done   int
 	env    *Env
 	x      *Expr
 	guard  string
@@ -51,6 +52,7 @@ type Obligation struct {
 	Region  string // known-finding carve-out applied
 
 	Syntactic  bool
+	Extra      []Assume
 	env        *Env
 	rt         *replayTemplate
 	valueKeys  []string
@@ -123,11 +125,18 @@ type FnTrans struct {
 	curState *BState
 	curEnv   *Env
 	idxCands []Val
+	heapAnc  map[string][]*frameFact
+	frameDone map[string]bool
+	loopObjs []*ssa.Alloc
+	pendingDecoded []pendingDec
 	symAllocs []string
-	reinst   []func()
+	reinst   []func([]Val)
+	skolems  []Val
+	sink     *[]Assume
 	lastReinst int
 	frames   []frameFact
-	qhyps    []qhyp
+	qhyps    []*qhyp
+	assumeSeen map[string]bool
 	allocs   []*ssa.Alloc
 	escCache map[*ssa.Alloc]bool
 	curLoopBlocks map[*ssa.BasicBlock]bool
@@ -147,15 +156,37 @@ func (tr *FnTrans) assume(guard, fact, origin string) {
 	if fact == "true" {
 		return
 	}
+	if tr.assumeSeen == nil {
+		tr.assumeSeen = map[string]bool{}
+	}
+	if tr.sink != nil {
+		*tr.sink = append(*tr.sink, Assume{guard, fact, origin})
+		return
+	}
+	key := guard + "|" + fact
+	if tr.assumeSeen[key] {
+		return
+	}
+	tr.assumeSeen[key] = true
 	tr.assumes = append(tr.assumes, Assume{guard, fact, origin})
 }
 
 func (tr *FnTrans) oblige(kind, clause, guard, goal string, pos token.Pos) *Obligation {
-	tr.reinstantiate() // the goal may have introduced skolem constants: instantiate hypotheses with them
+	tr.reinstantiate()
+	// the goal may have introduced skolem constants: instantiate the hypotheses with them, for this
+	// obligation only
+	var extra []Assume
+	if len(tr.skolems) > 0 {
+		sk := tr.skolems
+		tr.skolems = nil
+		tr.sink = &extra
+		tr.instantiateWith(sk)
+		tr.sink = nil
+	}
 	tr.oblCnt[kind]++
 	name := fmt.Sprintf("%s/%s#%d", tr.name, kind, tr.oblCnt[kind])
 	o := &Obligation{Name: name, Kind: kind, Fn: tr.name, Props: tr.props, Guard: guard, Goal: goal,
-		NDecl: len(tr.smt.decls), NAssume: len(tr.assumes), Expect: "unsat", Clause: clause, tr: tr}
+		NDecl: len(tr.smt.decls), NAssume: len(tr.assumes), Expect: "unsat", Clause: clause, tr: tr, Extra: extra}
 	if pos.IsValid() {
 		p := tr.fn.Prog.Fset.Position(pos)
 		o.Pos = fmt.Sprintf("%s:%d", p.Filename, p.Line)
@@ -211,7 +242,7 @@ func (tr *FnTrans) text(o *Obligation) string {
 		b.WriteString(l)
 		b.WriteByte('\n')
 	}
-	for _, a := range tr.assumes[:o.NAssume] {
+	for _, a := range append(append([]Assume{}, tr.assumes[:o.NAssume]...), o.Extra...) {
 		if a.Guard == "true" {
 			fmt.Fprintf(&b, "(assert %s) ; %s\n", a.Fact, a.Origin)
 		} else {
@@ -425,7 +456,9 @@ func (tr *FnTrans) load(h *Heap, addr string, t types.Type, guard string, quiet 
 		return acc
 	}
 	srt := tr.smt.sortOf(t)
-	term := fmt.Sprintf("(select %s %s)", h.lookup(srt), addr)
+	hterm := h.lookup(srt)
+	term := fmt.Sprintf("(select %s %s)", hterm, addr)
+	tr.frameInstances(hterm, addr)
 	if !quiet && needsWF(t, 0) {
 		if _, isInt := t.Underlying().(*types.Basic); !isInt || tr.smt.intMode || isStringType(t) {
 			n := tr.smt.define("ld", srt, term)
@@ -466,7 +499,30 @@ func (tr *FnTrans) store(h *Heap, addr string, t types.Type, v string) {
 	srt := tr.smt.sortOf(t)
 	cur := h.lookup(srt)
 	nt := tr.smt.define("H_"+heapKey(srt), h.arraySort(srt), fmt.Sprintf("(store %s %s %s)", cur, addr, v))
+	if anc := tr.heapAnc[cur]; len(anc) > 0 {
+		tr.heapAnc[nt] = anc
+	}
 	h.set(srt, nt)
+}
+
+// frameInstances adds, for a read at addr from a heap derived from bulk updates (append, copy), the
+// frame fact of each such update instantiated at addr: cells outside the updated range are unchanged.
+func (tr *FnTrans) frameInstances(hterm, addr string) {
+	anc := tr.heapAnc[hterm]
+	if len(anc) == 0 || strings.Contains(addr, "q%%") || strings.Contains(addr, "r%%") || strings.Contains(addr, "p%%") {
+		return
+	}
+	for _, ff := range anc {
+		key := ff.nw + "|" + addr
+		if tr.frameDone[key] {
+			continue
+		}
+		if tr.sink == nil {
+			tr.frameDone[key] = true
+		}
+		tr.assume(ff.guard, fmt.Sprintf("(=> (not %s) (= (select %s %s) (select %s %s)))", ff.changedOf(addr), ff.nw, addr, ff.old, addr), "frame of bulk update at the address read")
+		tr.frameInstances(ff.old, addr)
+	}
 }
 
 // cellSorts collects the cell sorts a value of type t occupies in memory.
@@ -786,8 +842,55 @@ func (tr *FnTrans) intCmp(op token.Token, x, y Val) string {
 }
 
 func (tr *FnTrans) equal(x, y Val) string {
-	// interface comparison against nil
+	if x.Ty != nil && containsArray(x.Ty, 0) {
+		return tr.deepEq(x.T, y.T, x.Ty)
+	}
 	return fmt.Sprintf("(= %s %s)", x.T, y.T)
+}
+
+func containsArray(t types.Type, depth int) bool {
+	if depth > 8 {
+		return false
+	}
+	switch u := t.Underlying().(type) {
+	case *types.Array:
+		return true
+	case *types.Struct:
+		for i := 0; i < u.NumFields(); i++ {
+			if containsArray(u.Field(i).Type(), depth+1) {
+				return true
+			}
+		}
+	}
+	return false
+}
+
+// deepEq is Go's == on values that contain arrays: SMT arrays are compared on the indices the Go
+// array has (their contents elsewhere are meaningless).
+func (tr *FnTrans) deepEq(a, b string, t types.Type) string {
+	switch u := t.Underlying().(type) {
+	case *types.Array:
+		if u.Len() > maxArrayUnfold {
+			return fmt.Sprintf("(= %s %s)", a, b)
+		}
+		var cs []string
+		for i := int64(0); i < u.Len(); i++ {
+			idx := tr.lit64(i)
+			cs = append(cs, tr.deepEq(fmt.Sprintf("(select %s %s)", a, idx), fmt.Sprintf("(select %s %s)", b, idx), u.Elem()))
+		}
+		return and(cs...)
+	case *types.Struct:
+		if !containsArray(t, 0) {
+			return fmt.Sprintf("(= %s %s)", a, b)
+		}
+		name := tr.smt.sortOf(t)
+		var cs []string
+		for i := 0; i < u.NumFields(); i++ {
+			cs = append(cs, tr.deepEq(fmt.Sprintf("(%s_f%d %s)", name, i, a), fmt.Sprintf("(%s_f%d %s)", name, i, b), u.Field(i).Type()))
+		}
+		return and(cs...)
+	}
+	return fmt.Sprintf("(= %s %s)", a, b)
 }
 
 func (tr *FnTrans) binop(op token.Token, x, y Val, resTy types.Type, st *BState, pos token.Pos) string {
